@@ -158,6 +158,7 @@ LABEL_POOLS = {
     "concat": ["ab", "c", "a", "bc"],
     "case": ["Data", "data", "DATA", "dAta"],
     "underscore": ["x_y", "x", "y", "x_y_baseline"],
+    "dotted": ["run.a", "run.b", "run", "run.a.x"],  # labels become file names: equal up to the last dot
 }
 
 
